@@ -51,7 +51,7 @@ type Tree struct {
 	// WideTxns counts transactions of more than 30 writes
 	WideTxns int `json:"wide_txns,omitempty"`
 	HugeTxns int `json:"huge_txns,omitempty"`
-	byHash map[string]*Block
+	byHash   map[string]*Block
 }
 
 // Entry is a write as the cache should see it.
